@@ -40,6 +40,10 @@ class B:
 
     def store(self, r: int):
         """the library stored this value rounded to r decimals"""
+        if self.e == 0.0 and round(self.v, r) == self.v:
+            # an exact value that already sits on the r-decimal grid is stored unchanged (dyadic price
+            # grids with period 2/4: ties between a close and a band are then decidable)
+            return self
         return B(self.v, self.e + 0.5 * 10.0**-r + abs(self.v) * EPS)
 
     def widen(self, extra: float):
